@@ -367,9 +367,10 @@ nextStateFile:
 			matches.Shrink()
 			nt := &tag{
 				TagDetails: query.TagDetails{
-					Matches:    matches,
-					Uncertain:  mgr.allStreams,
-					Conditions: q.Conditions,
+					ReferenceTime: q.ReferenceTime,
+					Matches:       matches,
+					Uncertain:     mgr.allStreams,
+					Conditions:    q.Conditions,
 				},
 				definition:   t.Definition,
 				features:     q.Conditions.Features(),
@@ -1062,7 +1063,8 @@ func (mgr *Manager) AddTag(name, color, queryString string) error {
 	}
 	nt := &tag{
 		TagDetails: query.TagDetails{
-			Conditions: q.Conditions,
+			ReferenceTime: q.ReferenceTime,
+			Conditions:    q.Conditions,
 		},
 		definition:   queryString,
 		features:     features,
@@ -1243,7 +1245,8 @@ func (mgr *Manager) UpdateTag(name string, operation UpdateTagOperation) error {
 		}
 		newTag = &tag{
 			TagDetails: query.TagDetails{
-				Conditions: q.Conditions,
+				ReferenceTime: q.ReferenceTime,
+				Conditions:    q.Conditions,
 			},
 			definition: *info.query,
 			features:   features,
@@ -2583,7 +2586,7 @@ func (v *View) prefetchTags(ctx context.Context, tags []string, bm bitmask.LongB
 					continue outer
 				}
 			}
-			matches, _, _, err := index.SearchStreams(ctx, v.indexes, &uncertain, time.Time{}, ti.Conditions, nil, []query.Sorting{{Key: query.SortingKeyID, Dir: query.SortingDirAscending}}, 0, 0, v.tagDetails, v.converters, false)
+			matches, _, _, err := index.SearchStreams(ctx, v.indexes, &uncertain, ti.ReferenceTime, ti.Conditions, nil, []query.Sorting{{Key: query.SortingKeyID, Dir: query.SortingDirAscending}}, 0, 0, v.tagDetails, v.converters, false)
 			if err != nil {
 				return err
 			}
